@@ -303,6 +303,72 @@ fn extra_programs() -> Vec<ArgCase> {
         ];
         out.push(ArgCase { prog: Prog { main, subs: vec![sub], declare: true, ..Default::default() }, label: format!("same variable twice {} {}", first, second), expect_reject: false });
     }
+    // the element an array-element argument denotes is fixed when the call is made: its subscripts are
+    // evaluated once, whatever the callee does to the variables in them
+    for variant in 0..6 {
+        let mut b = B::new();
+        let p_int = |n: &str| Param { name: n.into(), ty: None, is_array: false };
+        let mut subs = vec![];
+        // SUB SetBoth (N%, V%): changes the subscript variable and the element
+        let body = vec![b.assign(var("N%"), num(2)), b.assign(var("V%"), num(99))];
+        let id = b.id();
+        subs.push(SubDef { id, name: "SetBoth".into(), is_function: false, params: vec![p_int("N%"), p_int("V%")], body, is_static: false });
+        // SUB Bump (V%)
+        let body = vec![b.assign(var("V%"), bin(BinOp::Add, var("V%"), num(1)))];
+        let id = b.id();
+        subs.push(SubDef { id, name: "Bump".into(), is_function: false, params: vec![p_int("V%")], body, is_static: false });
+        // FUNCTION NextIx%: a subscript with a side effect (counts its calls in the SHARED CNT%)
+        let body = vec![b.assign(var("CNT%"), bin(BinOp::Add, var("CNT%"), num(1))), b.assign(var("NextIx%"), var("CNT%"))];
+        let id = b.id();
+        subs.push(SubDef { id, name: "NextIx%".into(), is_function: true, params: vec![], body, is_static: false });
+        // FUNCTION Same% (K%) and FUNCTION Twice% (V%)
+        let body = vec![b.assign(var("Same%"), var("K%"))];
+        let id = b.id();
+        subs.push(SubDef { id, name: "Same%".into(), is_function: true, params: vec![p_int("K%")], body, is_static: false });
+        let body = vec![b.assign(var("V%"), bin(BinOp::Add, var("V%"), num(100))), b.assign(var("Twice%"), bin(BinOp::Mul, var("V%"), num(2)))];
+        let id = b.id();
+        subs.push(SubDef { id, name: "Twice%".into(), is_function: true, params: vec![p_int("V%")], body, is_static: false });
+        let el = |e: Expr| Expr::Index("A%".into(), vec![e]);
+        let mut main = vec![
+            b.s(K::Dim { shared: true, redim: false, vars: vec![DimVar { name: "CNT%".into(), ty: None, dims: vec![] }] }),
+            b.s(K::Dim { shared: false, redim: false, vars: vec![DimVar { name: "A%".into(), ty: None, dims: vec![(Some(num(1)), num(3))] }] }),
+            b.assign(el(num(1)), num(10)),
+            b.assign(el(num(2)), num(20)),
+            b.assign(el(num(3)), num(30)),
+            b.assign(var("I%"), num(1)),
+        ];
+        let label = match variant {
+            0 => {
+                main.push(b.s(K::Call("SetBoth".into(), vec![var("I%"), el(var("I%"))])));
+                "the callee changes the subscript variable through another parameter"
+            }
+            1 => {
+                main.push(b.s(K::Call("Bump".into(), vec![el(call("NextIx%", vec![]))])));
+                "the subscript is a FUNCTION with a side effect"
+            }
+            2 => {
+                main.push(b.print(vec![call("Twice%", vec![el(call("Same%", vec![num(2)]))])]));
+                "a FUNCTION call inside the subscript of the argument of a FUNCTION"
+            }
+            3 => {
+                main.push(b.assign(var("B%"), num(1)));
+                main.push(b.s(K::Call("SetBoth".into(), vec![el(call("Same%", vec![var("I%")])), var("B%")])));
+                main.push(b.print(vec![var("B%")]));
+                "a FUNCTION call inside the subscript, next to another by-reference argument"
+            }
+            4 => {
+                main.push(b.s(K::Call("SetBoth".into(), vec![var("I%"), el(bin(BinOp::Add, var("I%"), num(1)))])));
+                "the subscript is an expression of a variable the callee changes"
+            }
+            _ => {
+                main.push(b.s(K::Read(vec![el(call("NextIx%", vec![]))])));
+                main.push(b.s(K::Data(vec![DataItem::Num("77".into())])));
+                "READ into an element whose subscript is a FUNCTION with a side effect"
+            }
+        };
+        main.push(b.print(vec![var("I%"), var("CNT%"), el(num(1)), el(num(2)), el(num(3))]));
+        out.push(ArgCase { prog: Prog { main, subs, declare: true, ..Default::default() }, label: format!("array element by reference: {}", label), expect_reject: false });
+    }
     for depth in 0..=3 {
         let mut b = B::new();
         // FUNCTION Sum%(N%): a local per activation must survive the recursive call
